@@ -13,10 +13,11 @@ import (
 	"fmt"
 	"os"
 	"reflect"
-	"strings"
 	"time"
 
 	"k8s.io/apimachinery/pkg/api/resource"
+
+	v1 "sigs.k8s.io/karpenter/pkg/apis/v1"
 
 	"verifharness/kit"
 	sk "verifharness/schedkit"
@@ -26,182 +27,11 @@ func resourceMilli(v int64) *resource.Quantity {
 	return resource.NewMilliQuantity(v, resource.DecimalSI)
 }
 
-// ---- known-finding shapes (known-findings.txt): one defect is reported once, anything else still fails ----
-const (
-	// F11: the conjunction of a pod's own constraints on one key is empty; the algebra stores the empty set as
-	// DoesNotExist, which "is satisfied when undefined", so the pod is accepted on a node / pool that does not define the key
-	kfCollapse = "contradictory-constraints-collapse-to-doesnotexist"
-	// F12: ExistingNode keeps pod requirements for label keys the node does not carry; after a pod with `k NotIn [..]`
-	// a later pod demanding `k In [..]` / `k Exists` is accepted although the node has no label k
-	kfUndefinedLabel = "existing-node-undefined-label-after-notin"
-	// F13: ExistingNode.CanAdd checks host ports against bound pods only, not against daemonset pods still to arrive
-	kfDaemonPort = "existing-node-daemon-hostport-not-reserved"
-	// F14: isDaemonPodCompatible drops required OR-terms from the SHARED daemon pod while probing one instance type; later
-	// instance types and the existing nodes are judged against the truncated affinity and the daemon's overhead is missed
-	kfDaemonTerms = "daemon-affinity-terms-dropped-while-probing"
-	// F15: daemon overhead is computed against the NodePool template; a custom label key that only a pod introduces on the
-	// claim (allowed for NotIn / DoesNotExist, later narrowed) ends up as a node label and lets further daemonsets match
-	kfDaemonLabel = "daemon-overhead-ignores-labels-introduced-by-pods"
-)
-
-func multiTermDaemon(ds []sk.PodDump) bool {
-	for _, d := range ds {
-		if len(d.Req) >= 2 {
-			return true
-		}
-	}
-	return false
-}
-
-func mentions(d sk.PodDump, k string) bool {
-	n, _ := constraintsOn(d, k)
-	return n > 0
-}
-
-func positive(op string) bool { return op != "NotIn" && op != "DoesNotExist" }
-
-// constraintsOn lists the operators a pod puts on key k anywhere in its spec (selector, required, preferred).
-func constraintsOn(p sk.PodDump, k string) (n int, pos bool) {
-	for _, kv := range p.Sel {
-		if kv[0] == k {
-			n++
-			pos = true
-		}
-	}
-	for _, t := range p.Req {
-		for _, x := range t {
-			if x.Key == k {
-				n++
-				pos = pos || positive(x.Op)
-			}
-		}
-	}
-	for _, w := range p.Pref {
-		for _, x := range w.Term {
-			if x.Key == k {
-				n++
-			}
-		}
-	}
-	return
-}
-
-func podKeys(p sk.PodDump) []string {
-	seen := map[string]bool{}
-	var out []string
-	add := func(k string) {
-		if !seen[k] {
-			seen[k] = true
-			out = append(out, k)
-		}
-	}
-	for _, kv := range p.Sel {
-		add(kv[0])
-	}
-	for _, t := range p.Req {
-		for _, x := range t {
-			add(x.Key)
-		}
-	}
-	return out
-}
-
-func clash(a, b sk.HostPort) bool {
-	return a.Proto == b.Proto && a.Port == b.Port && (a.IP == b.IP || a.IP == "0.0.0.0" || b.IP == "0.0.0.0")
-}
-
-func kfKeyClaim(cd sk.ClaimDump, daemons []sk.PodDump) string {
-	if k := kfKeyClaimPods(cd); k != "" {
-		return k
-	}
-	if multiTermDaemon(daemons) {
-		return kfDaemonTerms
-	}
-	defined := map[string]bool{}
-	for _, k := range cd.PoolKeys {
-		defined[k] = true
-	}
-	for _, r := range cd.Reqs {
-		if strings.HasPrefix(r.Key, "example.com/") && !defined[r.Key] {
-			for _, d := range daemons {
-				if mentions(d, r.Key) {
-					return kfDaemonLabel
-				}
-			}
-		}
-	}
-	return ""
-}
-
-func kfKeyClaimPods(cd sk.ClaimDump) string {
-	empty := map[string]bool{}
-	for _, r := range cd.Reqs {
-		if !r.Compl && len(r.Vals) == 0 {
-			empty[r.Key] = true
-		}
-	}
-	for _, p := range cd.Pods {
-		for _, k := range podKeys(p) {
-			if n, pos := constraintsOn(p, k); empty[k] && n >= 2 && pos {
-				return kfCollapse
-			}
-		}
-	}
-	return ""
-}
-
-func kfKeyExisting(e sk.ExistingDump) string {
-	labels := map[string]bool{}
-	for _, kv := range e.Labels {
-		labels[kv[0]] = true
-	}
-	for _, p := range e.Placed {
-		for _, k := range podKeys(p) {
-			if n, pos := constraintsOn(p, k); !labels[k] && n >= 2 && pos {
-				return kfCollapse
-			}
-		}
-	}
-	// a placed pod demands a label the node does not carry, while another placed pod excludes values of that key
-	excluded := map[string]bool{}
-	for _, p := range e.Placed {
-		for _, t := range p.Req {
-			for _, x := range t {
-				if !labels[x.Key] && x.Op == "NotIn" {
-					excluded[x.Key] = true
-				}
-			}
-		}
-	}
-	for _, p := range e.Placed {
-		for _, k := range podKeys(p) {
-			if _, pos := constraintsOn(p, k); !labels[k] && excluded[k] && pos {
-				return kfUndefinedLabel
-			}
-		}
-	}
-	for _, p := range e.Placed {
-		for _, d := range e.Daemons {
-			for _, a := range p.Ports {
-				for _, b := range d.Ports {
-					if clash(a, b) {
-						return kfDaemonPort
-					}
-				}
-			}
-		}
-	}
-	if multiTermDaemon(e.Daemons) {
-		return kfDaemonTerms
-	}
-	return ""
-}
-
 func runWorld(c *kit.Ctx, r *kit.Rand, idx int) {
 	// every third world carries no pod (anti-)affinity / topology spread: Solve is then deterministic up to map order
 	// and is used for the comparison across degrees of parallelism
 	noTopo := idx%3 == 0
-	w := sk.Gen(r, sk.GenOpts{Thorough: c.Thorough(), NoTopology: noTopo})
+	w := sk.Gen(r, sk.GenOpts{Thorough: c.Thorough(), NoTopology: noTopo, Volumes: idx%2 == 0, Normalised: idx%3 == 1, Reserved: idx%5 == 0})
 	sk.BindDaemonPods(r, w)
 	cfg := sk.RunCfg{Workers: 1, IgnorePreferences: idx%2 == 1, BestEffortMinValues: (idx/2)%2 == 1}
 	judgeWorld(c, w, cfg, idx, noTopo)
@@ -221,29 +51,14 @@ func judgeWorld(c *kit.Ctx, w *sk.World, cfg sk.RunCfg, idx int, noTopo bool) {
 	for _, cd := range d.Claims {
 		c.Count(fmt.Sprintf("B.claim.pods=%d", min(len(cd.Pods), 4)))
 		c.Count(fmt.Sprintf("B.claim.options=%d", min(len(cd.Options), 6)))
-		term := fmt.Sprintf("(BNew %s %s %s %s %s %s)", gWK(d.WellKnown), gReqs(cd.Reqs), kit.GListOf(cd.Taints, gTaint), kit.GListOf(cd.Options, gOpt),
-			kit.GListOf(cd.Pods, gPod), kit.GListOf(d.Daemons, gPod))
-		in := map[string]interface{}{"kind": "Solve/new-nodeclaim", "config": cfg, "claim": cd, "daemons": d.Daemons}
-		if k := kfKeyClaim(cd, d.Daemons); k != "" {
-			in["kf_key"] = k
-			c.Count("B.kf-shape." + k)
-		}
-		raw, _ := json.Marshal(cd)
-		c.AddCase(term, in, "bnew|"+string(raw))
+		emitClaim(c, d, cd, cfg)
 	}
 	for _, ed := range d.Existing {
 		if len(ed.Placed) == 0 {
 			continue
 		}
 		c.Count("B.existing." + ed.Kind + ".placed")
-		term := fmt.Sprintf("(BEx %s %s %s %s %s %s)", gPairs(ed.Labels), kit.GListOf(ed.Taints, gTaint), gRL(ed.Alloc), kit.GListOf(ed.Bound, gPod), kit.GListOf(ed.Placed, gPod), kit.GListOf(ed.Daemons, gPod))
-		in := map[string]interface{}{"kind": "Solve/existing-node", "config": cfg, "node": ed}
-		if k := kfKeyExisting(ed); k != "" {
-			in["kf_key"] = k
-			c.Count("B.kf-shape." + k)
-		}
-		raw, _ := json.Marshal(ed)
-		c.AddCase(term, in, "bex|"+string(raw))
+		emitExisting(c, ed, cfg)
 	}
 	// every degree of candidate-evaluation parallelism must give the same projected result
 	base := d.Assignment()
@@ -281,7 +96,7 @@ func main() {
 	c.Meta.Rule = "structured random: mostly-valid pods stressed in one or two dimensions over generated catalogues / NodePools / nodes / daemonsets; unit streams per function"
 	c.Meta.Exhaustive = false
 	c.Meta.Corr = []string{"Taints.ToleratesPod", "HostPortUsage.Conflicts", "resources.Fits", "NewPodRequirements/NewStrictPodRequirements",
-		"Preferences.Relax", "NewExistingNode.remainingResources", "filterInstanceTypesByRequirements", "NodeClaim.CanAdd/Add", "ExistingNode.CanAdd/Add",
+		"Preferences.Relax", "VolumeUsage.ExceedsLimits", "VolumeTopology.GetRequirements", "NewExistingNode.remainingResources", "filterInstanceTypesByRequirements", "NodeClaim.CanAdd/Add", "ExistingNode.CanAdd/Add",
 		"Scheduler.Solve placements vs admissibility oracle (1/4/16 workers agree)"}
 	nUnit, nNC, nEX, nWorlds := 150, 120, 80, 100
 	if c.Thorough() {
@@ -289,10 +104,11 @@ func main() {
 	}
 	t0 := time.Now()
 	r := c.Rand
+	checkNormTable(c)
 	if dw := os.Getenv("C01_WORLD"); dw != "" { // development aid: replay one world of part B under several worker counts
 		var target int
 		fmt.Sscan(dw, &target)
-		forks := nUnit*5 + (nUnit+24)/25 + 1 + nNC + nEX
+		forks := nUnit*6 + (nUnit+1)/2 + (nUnit+24)/25 + 1 + nNC + nEX
 		for i := 0; i < forks+target; i++ {
 			r.Fork()
 		}
@@ -309,6 +125,10 @@ func main() {
 		}
 		casePodReqs(c, r.Fork(), w0)
 		caseRelax(c, r.Fork(), w0)
+		caseVolLimits(c, r.Fork())
+		if i%2 == 0 {
+			caseVolAlts(c, r.Fork())
+		}
 	}
 	tA := time.Since(t0)
 	for i := 0; i < nNC; i++ {
@@ -325,8 +145,7 @@ func main() {
 	c.Meta.Extra = map[string]interface{}{
 		"seconds": map[string]float64{"unit": tA.Seconds(), "steps": (tS - tA).Seconds(), "solve": (time.Since(t0) - tS).Seconds()},
 		"assumptions": []string{
-			"volume limits / volume zones, DRA and reserved-capacity offerings are not generated (not covered by this check)",
-			"label keys that Karpenter normalises (beta.kubernetes.io/*) are not generated",
+			"DRA is not generated (C17); hostname affinity of Local / HostPath volumes is ignored by the oracle as it is by design in Karpenter",
 			"goroutine interleavings inside parallelizeUntil are exercised (1/4/16 workers) but not modelled",
 			"expected daemons of the oracle: every daemonset that may run for some labelling the node can get (per-key over-approximation)",
 		}}
@@ -363,4 +182,18 @@ func dumpPods(w *sk.World) []sk.PodDump {
 		out = append(out, sk.DumpPod(p))
 	}
 	return out
+}
+
+// checkNormTable ties coq/C01/Model.v's norm_table to v1.NormalizedLabels / v1.NormalizedLabelValues.
+func checkNormTable(c *kit.Ctx) {
+	model := map[string]string{
+		"failure-domain.beta.kubernetes.io/zone":   "topology.kubernetes.io/zone",
+		"beta.kubernetes.io/arch":                  "kubernetes.io/arch",
+		"beta.kubernetes.io/os":                    "kubernetes.io/os",
+		"beta.kubernetes.io/instance-type":         "node.kubernetes.io/instance-type",
+		"failure-domain.beta.kubernetes.io/region": "topology.kubernetes.io/region",
+	}
+	if !reflect.DeepEqual(model, v1.NormalizedLabels) || len(v1.NormalizedLabelValues) != 0 {
+		c.Fail(c.NextID(), fmt.Sprintf("v1.NormalizedLabels / NormalizedLabelValues differ from the model's norm_table: %v %v", v1.NormalizedLabels, v1.NormalizedLabelValues), "", nil)
+	}
 }
